@@ -104,9 +104,9 @@ def canon_args(args):
         elif isinstance(arg, bool):
             out.append(['bool', bool(arg)])
         elif isinstance(arg, int):
-            out.append(['int', int(arg)])
+            out.append(['int' if type(arg).__module__ in ('builtins', 'enum') or True else type(arg).__name__, int(arg)])
         elif isinstance(arg, str):
-            out.append(['str', str(arg)])
+            out.append([type(arg).__name__ if type(arg) is not str else 'str', str(arg)])
         elif isinstance(arg, (list, tuple)):
             out.append(['list', canon_args(arg)])
         elif isinstance(arg, dict):
@@ -155,6 +155,8 @@ class System(object):
     def _mk_on_close(endp):
         def func():
             endp.closed_cb += 1
+            dbus.service.EVENT_LOG.append(dict(kind='closed', obj='/' + endp.name, name='on_close',
+                                               signature=None, args=()))
         return func
 
     # -------------------------------------------------------------- sources
@@ -178,6 +180,7 @@ class System(object):
         endp = self.ep[oper[1]]
         hdl = endp.h
         res = dict(ran=True, exc=None, ret=None)
+        path = '/' + oper[1]
 
         def call(func, *args):
             try:
@@ -185,6 +188,8 @@ class System(object):
             except Exception as err:  # escapes a D-Bus method / callback
                 res['exc'] = err.__class__.__name__
                 self.escaped.append((self.opidx, oper[1], err.__class__.__name__, str(err)))
+                dbus.service.EVENT_LOG.append(dict(kind='exc', obj=path, name=err.__class__.__name__,
+                                                   signature=None, args=(str(err),)))
 
         def dispatch(src):
             if src is None:
@@ -194,6 +199,8 @@ class System(object):
             if exc is not None:
                 res['exc'] = exc.__class__.__name__
                 self.escaped.append((self.opidx, oper[1], exc.__class__.__name__, str(exc)))
+                dbus.service.EVENT_LOG.append(dict(kind='exc', obj=path, name=exc.__class__.__name__,
+                                                   signature=None, args=(str(exc),)))
 
         if kind == 'start':
             call(hdl.start)
@@ -206,9 +213,18 @@ class System(object):
         elif kind == 'pop':
             call(hdl.recv_bundle_pop_data, str(oper[2]))
         elif kind == 'txpump':
-            endp.sock.accept = oper[2]
+            # ('txpump', e, accept) or ('txpump', e, 'idle'|'io', accept)
             # the IO_OUT watch and the idle source are the same function
-            src = self._src(endp, 'idle', '_avail_tx_notls') or self._src(endp, 'io', '_avail_tx_notls', GLib.IO_OUT)
+            if len(oper) == 3:
+                accept = oper[2]
+                src = self._src(endp, 'idle', '_avail_tx_notls') or self._src(endp, 'io', '_avail_tx_notls', GLib.IO_OUT)
+            elif oper[2] == 'idle':
+                accept = oper[3]
+                src = self._src(endp, 'idle', '_avail_tx_notls')
+            else:
+                accept = oper[3]
+                src = self._src(endp, 'io', '_avail_tx_notls', GLib.IO_OUT)
+            endp.sock.accept = accept
             dispatch(src)
             endp.sock.accept = 1 << 30
         elif kind == 'rxpump':
@@ -222,7 +238,12 @@ class System(object):
             dispatch(self._src(endp, 'idle', '_process_queue'))
         elif kind == 'fire':
             name = {'keepalive': '_keepalive_timeout', 'idle': '_idle_timeout'}[oper[2]]
-            dispatch(self._src(endp, 'timeout', name))
+            src = self._src(endp, 'timeout', name)
+            if src is not None and len(oper) > 3 and oper[3] == 'due' and src.due > self.ctx.now_ms:
+                src = None  # GLib only dispatches a timer that is due
+            dispatch(src)
+        elif kind == 'advance':
+            self.ctx.advance(oper[2])
         elif kind == 'inject':
             endp.sock.inbox += oper[2]
         elif kind == 'eof':
@@ -247,6 +268,12 @@ class System(object):
             sources=self.sources(e),
             seg_size=hdl._send_segment_size,
             keepalive=hdl._keepalive_time,
+            ka_due=(lambda t: t[0].due if t else None)(self.ctx.find(kind='timeout', name='_keepalive_timeout', owner=hdl)),
+            idle_due=(lambda t: t[0].due if t else None)(self.ctx.find(kind='timeout', name='_idle_timeout', owner=hdl)),
+            n_src=(len(self.ctx.find(kind='io', name='_avail_tx_notls', owner=hdl)),
+                   len(self.ctx.find(kind='idle', name='_avail_tx_notls', owner=hdl)),
+                   len(self.ctx.find(kind='idle', name='_process_queue', owner=hdl))),
+            idle=bool(tcpcl.session.ContactHandler.is_sess_idle.__wrapped__(hdl)),
             tx_queue=[str(k) for k in hdl._tx_map.keys()],
             rx_queue=[str(k) for k in hdl._rx_map.keys()],
             tx_pend_start=[it.transfer_id for it in hdl._tx_pend_start],
